@@ -12,7 +12,6 @@ from typing import (
     List,
     Optional,
     Sequence,
-    Set,
     Tuple,
 )
 
@@ -421,6 +420,11 @@ class AhocorasickTokenizer(Tokenizer):
         self.unfiltered_extractors = set(
             e for e in self.extractors if not e.strings
         )
+        # Remember list positions so that get_extractors() can return its
+        # selection in a deterministic order
+        self.extractor_positions = {
+            id(e): i for i, e in enumerate(self.extractors)
+        }
         # Build a pyahocorasick filter for all case-sensitive extractors
         self.case_sensitive_filter = self.make_ahocorasick_filter(
             (s, e)
@@ -436,7 +440,7 @@ class AhocorasickTokenizer(Tokenizer):
             for s in e.strings
         )
 
-    def get_extractors(self, text: str) -> Set[TokenExtractor]:
+    def get_extractors(self, text: str) -> List[TokenExtractor]:
         """Override get_extractors() to filter out extractors
         that can't possibly match."""
         unique_extractors = set(self.unfiltered_extractors)
@@ -447,7 +451,12 @@ class AhocorasickTokenizer(Tokenizer):
         folded = text.translate(self.NON_ASCII_CASE_VARIANTS).lower()
         for _, extractors in self.case_insensitive_filter.iter(folded):
             unique_extractors.update(extractors)
-        return unique_extractors
+        # Return the selection in list order, like the base class: which token
+        # wins among overlapping matches depends on the order of extraction,
+        # and set order varies with PYTHONHASHSEED
+        return sorted(
+            unique_extractors, key=lambda e: self.extractor_positions[id(e)]
+        )
 
     @staticmethod
     def make_ahocorasick_filter(
